@@ -117,3 +117,287 @@ def family_profile(rng, nmax=4, dmax=4, kinds=KINDS, random_extra=0, per_profile
         lets = [b for b in range(n) if rng.random() < 0.3]
         out.append(profile_prog(kind, p, rng, handler=rng.random() < 0.5, lets=lets, extra_ops=True))
     return out
+
+
+# ----------------------------------------------------------------------------- typed programs with rule tables
+# Types: ('Int',) | ('Opt', t) | ('Res', t).  Operands are calls of prelude functions of the run-time
+# harness (harness/rt/prelude.rs); the same table, as Gallina `opinfo` terms, drives the model's world.
+
+INT = ('Int',)
+
+
+def ty_rust(t):
+    if t[0] == 'Int':
+        return 'i64'
+    if t[0] == 'Opt':
+        return 'Option<%s>' % ty_rust(t[1])
+    return 'Result<%s, i64>' % ty_rust(t[1])
+
+
+def val_rust(t, rng, fail=False):
+    """(rust expr tokens, coq val)"""
+    if t[0] == 'Int':
+        z = rng.randint(0, 9)
+        return ([str(z)], '(VInt %d)' % z)
+    if t[0] == 'Opt':
+        if fail:
+            return (['None'], 'VNone')
+        toks, cv = val_rust(t[1], rng)
+        return (['Some', '('] + toks + [')'], '(VSome %s)' % cv)
+    if fail:
+        z = rng.randint(50, 59)
+        return (['Err', '(', str(z), ')'], '(VErr (VInt %d))' % z)
+    toks, cv = val_rust(t[1], rng)
+    return (['Ok', '('] + toks + [')'], '(VOk %s)' % cv)
+
+
+def cv_fn(t):
+    full = ty_rust(t).replace('<', ' < ').replace('>', ' > ').replace(',', ' , ').split()
+    return ['cv', ':', ':', '<'] + full + ['>']
+
+
+class Table:
+    def __init__(self):
+        self.ops = []       # (tokens, id, coq rule, cap)
+        self.next = 1
+
+    def new(self, mk):
+        i = self.next
+        self.next += 1
+        toks, rule, cap = mk(i)
+        self.ops.append((toks, i, rule, cap))
+        return ' '.join(toks).replace(': :', '::')
+
+    def coq(self):
+        return '[' + '; '.join('mkOp [%s] %d %s %s' % ('; '.join('"%s"' % t.replace('"', '""') for t in toks), i, rule,
+                                                         'true' if cap else 'false')
+                               for (toks, i, rule, cap) in self.ops) + ']'
+
+
+def Z(k):
+    return '(%d)' % k if k < 0 else str(k)
+
+
+def znum(k):
+    return ['-', str(-k)] if k < 0 else [str(k)]
+
+
+class TypedGen:
+    """Generates sync-kind programs over Option/Result values."""
+
+    def __init__(self, rng, kind, fail_rate=0.15, cap_rate=0.2, wrap_rate=0.25):
+        self.rng, self.kind = rng, kind
+        self.fail_rate, self.cap_rate, self.wrap_rate = fail_rate, cap_rate, wrap_rate
+        self.tab = Table()
+        self.names = []         # let names in branch order
+        self.step = 0
+
+    # -- operand constructors (text)
+    def call(self, fn, args_fn, rule_fn, blockable=True):
+        blockable = blockable and not getattr(self, 'noblock', False)
+        """operand `fn(id, args..)`; with probability cap_rate written as a capturing block."""
+        rng = self.rng
+
+        fn_toks = fn if isinstance(fn, list) else [fn]
+
+        def mk(i):
+            return (fn_toks + ['(', str(i)] + sum([[','] + a for a in args_fn], []) + [')'], rule_fn, False)
+        if blockable and rng.random() < self.cap_rate:
+            # { cap(ID, vec![..names..]); fn(ID2, ..) }
+            inner = {}
+
+            def mkcap(i):
+                shown = []
+                for nm in self.names:
+                    if shown:
+                        shown.append(',')
+                    if self.step == 0:
+                        shown += ['unbound', '(', '"%s"' % nm, ')']
+                    else:
+                        shown += ['named', '(', '"%s"' % nm, ',', '&', nm, ')']
+                i2 = self.tab.next
+                self.tab.next += 1
+                toks = (['{', 'cap', '(', str(i), ',', 'vec', '!', '['] + shown + [']', ')', ';',
+                         ] + fn_toks + ['(', str(i2)] + sum([[','] + a for a in args_fn], []) + [')', '}'])
+                inner['i2'] = i2
+                return (toks, 'KBLOCK %d' % i2, True)
+            txt = self.tab.new(mkcap)
+            # the block evaluates to the closure i2: register i2 so ECall finds its rule
+            toks, i, _, cap = self.tab.ops[-1]
+            self.tab.ops[-1] = (toks, i, '(KBlock %d)' % inner['i2'], True)
+            self.tab.ops.append((['<inner>', str(inner['i2'])], inner['i2'], rule_fn, False))
+            return txt
+        return self.tab.new(mk)
+
+    def op_for(self, t, inside_wrapper=False, depth=0):
+        """choose an operator applicable to a receiver of type t; returns (Act list, new type)"""
+        rng = self.rng
+        cands = []
+        if t[0] in ('Opt', 'Res'):
+            inner = t[1]
+            if inner == INT:
+                cands += ['map', 'and_then']
+                if t[0] == 'Opt':
+                    cands += ['filter', 'or_else_opt']
+                else:
+                    cands += ['or_else_res']
+            if t[0] == 'Res':
+                cands += ['map_err']
+            cands += ['or', 'then_id', 'inspect']
+            if depth < 2 and rng.random() < self.wrap_rate:
+                cands = ['wrap_map', 'wrap_and_then'] + (['wrap_filter'] if (t[0] == 'Opt' and inner == INT) else []) \
+                        + ['wrap_inspect'] + (['wrap_map_err'] if t[0] == 'Res' else [])
+        else:
+            cands = ['then_add', 'then_id']
+        c = rng.choice(cands)
+        fr = self.fail_rate
+        if c == 'map':
+            k = rng.randint(1, 5)
+            return [Act('Map', [self.call('add', [znum(k)], '(KAdd %d)' % k)])], t
+        if c == 'and_then':
+            m, r, k = rng.choice([2, 3, 5]), 0, rng.randint(1, 4)
+            if rng.random() > fr * 3:
+                m, r = 1000, 999
+            if t[0] == 'Opt':
+                return [Act('AndThen', [self.call('opt_if', [[str(m)], [str(r)], [str(k)]], '(KOptIf %d %d %d)' % (m, r, k))])], t
+            e = rng.randint(60, 69)
+            return [Act('AndThen', [self.call('res_if', [[str(m)], [str(r)], [str(k)], [str(e)]],
+                                              '(KResIf %d %d %d %d)' % (m, r, k, e))])], t
+        if c == 'filter':
+            m, r = (rng.choice([2, 3]), 0) if rng.random() < fr * 3 else (1000, 999)
+            return [Act('Filter', [self.call('pred', [[str(m)], [str(r)]], '(KPred %d %d)' % (m, r))])], t
+        if c == 'or_else_opt':
+            toks, cv = val_rust(t, rng, fail=rng.random() < fr)
+            return [Act('OrElse', [self.call('or_else_opt', [toks], '(KOrElseOpt %s)' % cv)])], t
+        if c == 'or_else_res':
+            k = rng.choice([1, 2, -1])
+            return [Act('OrElse', [self.call('or_else_res', [znum(k)], '(KOrElseRes %s)' % Z(k))])], t
+        if c == 'map_err':
+            k = rng.randint(1, 5)
+            return [Act('MapErr', [self.call('add', [znum(k)], '(KAdd %d)' % k)])], t
+        if c == 'or':
+            toks, cv = val_rust(t, rng, fail=rng.random() < fr)
+            return [Act('Or', [self.call(cv_fn(t), [toks], '(KConst %s)' % cv)])], t
+        if c == 'then_id':
+            return [Act('Then', [self.call('ident', [], 'KId')])], t
+        if c == 'then_add':
+            k = rng.randint(1, 5)
+            return [Act('Then', [self.call('add', [znum(k)], '(KAdd %d)' % k)])], t
+        if c == 'inspect':
+            return [Act('Inspect', [self.call('ins', [], 'KUnit')])], t
+        # wrappers: X >>> inner [<<<]
+        inner_t = t[1]
+        if c == 'wrap_map':
+            acts, t2 = self.chain_ops(inner_t, rng.randint(0, 2), depth + 1, must_type=None)
+            if acts is None:
+                return [Act('Then', [self.call('ident', [], 'KId')])], t
+            return [Act('Map', wrap=True)] + acts, (t[0], t2)
+        if c == 'wrap_and_then':
+            acts, t2 = self.chain_ops(inner_t, rng.randint(0, 2), depth + 1, must_family=t[0])
+            if acts is None:
+                return [Act('Then', [self.call('ident', [], 'KId')])], t
+            return [Act('AndThen', wrap=True)] + acts, t2
+        if c == 'wrap_map_err':
+            acts, t2 = self.chain_ops(INT, rng.randint(0, 1), depth + 1, must_type=INT)
+            return [Act('MapErr', wrap=True)] + acts, t
+        if c == 'wrap_filter':
+            m, r = (2, 0) if rng.random() < fr * 3 else (1000, 999)
+            return [Act('Filter', wrap=True), Act('Then', [self.call('pred', [[str(m)], [str(r)]], '(KPred %d %d)' % (m, r))])], t
+        if c == 'wrap_inspect':
+            return [Act('Inspect', wrap=True), Act('Then', [self.call('ins', [], 'KUnit', blockable=False)])], t
+        raise AssertionError(c)
+
+    def chain_ops(self, t, nops, depth=0, must_type=None, must_family=None):
+        """a sequence of operators starting at type t; inside wrappers (depth>0) the result must satisfy the
+        constraints; returns (acts, type).  The caller decides whether to close with <<<."""
+        acts = []
+        for _ in range(nops):
+            a, t = self.op_for(t, depth > 0, depth)
+            if a is None:
+                return None, None
+            acts += a
+            if a[0].wrap:
+                # the wrapper stays open until closed explicitly; close it with probability 1/2 unless last
+                if depth > 0 or self.rng.random() < 0.6:
+                    acts.append(Act(None, unwrap=True))
+                else:
+                    break
+        if must_type is not None and t != must_type:
+            # coerce back: only used for Int -> Int, always true as then_add/then_id keep Int
+            assert t == must_type, (t, must_type)
+        if must_family is not None and (t[0] != must_family):
+            # make the inner chain end in the family: Int -> Opt/Res through a call
+            if t == INT:
+                m, r, k = 1000, 999, self.rng.randint(1, 3)
+                if must_family == 'Opt':
+                    acts.append(Act('Then', [self.call('opt_if', [[str(m)], [str(r)], [str(k)]], '(KOptIf %d %d %d)' % (m, r, k))]))
+                    t = ('Opt', INT)
+                else:
+                    e = self.rng.randint(60, 69)
+                    acts.append(Act('Then', [self.call('res_if', [[str(m)], [str(r)], [str(k)], [str(e)]],
+                                                       '(KResIf %d %d %d %d)' % (m, r, k, e))]))
+                    t = ('Res', INT)
+            else:
+                # wrap a nested value of the other family: not expressible simply; keep inner empty instead
+                return None, None
+        return acts, t
+
+
+def typed_prog(rng, kind, profile, family=None, handler=None, lets=(), **kw):
+    """A typed sync-kind program with the given depth profile.  family: 'Opt' | 'Res' for the step-end types."""
+    is_try = kind[1] == '1'
+    g = TypedGen(rng, kind, **kw)
+    fam = family or rng.choice(['Opt', 'Res'])
+    g.names = ['x%d' % b for b in range(len(profile)) if b in lets]
+    brs = []
+    types = []
+    for b, d in enumerate(profile):
+        t = (fam, INT) if (is_try or rng.random() < 0.8) else (rng.choice(['Opt', 'Res']), INT)
+        if rng.random() < 0.25:
+            t = (t[0], (rng.choice(['Opt', 'Res']), INT))
+        brs.append(dict(t=t, acts=[], init=None))
+    # steps are generated step-major so that capture blocks know which step they are in
+    for k in range(max(profile)):
+        g.step = k
+        for b, d in enumerate(profile):
+            if k >= d:
+                continue
+            br = brs[b]
+            if k == 0:
+                toks, cv = val_rust(br['t'], rng, fail=rng.random() < g.fail_rate / 2)
+                br['init'] = g.call(cv_fn(br['t']), [toks], '(KConst %s)' % cv)
+            nops = rng.randint(0 if k == 0 else 1, 3)
+            for attempt in range(20):
+                save_ops, save_next = list(g.tab.ops), g.tab.next
+                acts, t2 = g.chain_ops(br['t'], nops)
+                if acts is not None and (not is_try or t2[0] == fam):
+                    break
+                g.tab.ops, g.tab.next = save_ops, save_next
+            else:
+                acts, t2 = [], br['t']
+            if k > 0:
+                if not acts:
+                    acts, t2 = g.chain_ops(br['t'], 1)
+                    if acts is None or (is_try and t2[0] != fam):
+                        acts, t2 = [Act('Then', [g.call('ident', [], 'KId')])], br['t']
+                acts[0].deferred = True
+            br['acts'] += acts
+            br['t'] = t2
+    branches = [Branch(br['init'], br['acts'], ('x%d' % b) if b in lets else None) for b, br in enumerate(brs)]
+    h = None
+    n = len(profile)
+    if handler:
+        if handler == 'then':
+            h = ('then', g.tab.new(lambda i: (['hd%d' % n, '(', str(i), ')'], 'KTuple', False)))
+        elif handler == 'map':
+            h = ('map', g.tab.new(lambda i: (['hd%d' % n, '(', str(i), ')'], 'KTuple', False)))
+        else:
+            wrapc = 'KTupleSome' if fam == 'Opt' else 'KTupleOk'
+            fn = 'hd%d_some' % n if fam == 'Opt' else 'hd%d_ok' % n
+            h = ('and_then', g.tab.new(lambda i: ([fn, '(', str(i), ')'], wrapc, False)))
+    p = Prog(kind, branches, h)
+    p.table = g.tab
+    p.types = [br['t'] for br in brs]
+    p.fam = fam
+    p.names = g.names
+    return p
